@@ -50,10 +50,7 @@ type multiHashPad struct {
 }
 
 func newMultiHashPad() multiHashPad {
-	padMap := &paddingMap{
-		charToSize:  map[string]int{"#": 4, "@": 1},
-		defaultChar: "@",
-	}
+	padMap := newPaddingMap(map[string]int{"#": 4, "@": 1}, "@")
 
 	return multiHashPad{padMap}
 }
@@ -76,10 +73,7 @@ type singleHashPad struct {
 }
 
 func newSingleHashPad() singleHashPad {
-	padMap := &paddingMap{
-		charToSize:  map[string]int{"#": 1, "@": 1},
-		defaultChar: "#",
-	}
+	padMap := newPaddingMap(map[string]int{"#": 1, "@": 1}, "#")
 
 	return singleHashPad{padMap}
 }
@@ -98,15 +92,19 @@ type paddingMap struct {
 }
 
 func (m *paddingMap) AllChars() []string {
-	if m.cachedKeys == nil {
-		m.cachedKeys = make([]string, len(m.charToSize))
-		i := 0
-		for k := range m.charToSize {
-			m.cachedKeys[i] = k
-			i++
-		}
-	}
 	return m.cachedKeys
+}
+
+// newPaddingMap creates a paddingMap. The list of padding characters is
+// prepared up front, because the shared instances are used from multiple
+// goroutines without locking.
+func newPaddingMap(charToSize map[string]int, defaultChar string) *paddingMap {
+	m := &paddingMap{charToSize: charToSize, defaultChar: defaultChar}
+	m.cachedKeys = make([]string, 0, len(charToSize))
+	for k := range charToSize {
+		m.cachedKeys = append(m.cachedKeys, k)
+	}
+	return m
 }
 
 func (m *paddingMap) PaddingCharsSize(chars string) int {
